@@ -286,10 +286,18 @@ class Expander:
         if mode == "assign" and body and isinstance(body[-1], ast.Return) and body[-1].value is not None and not _contains(body[:-1], ast.Return):
             rv = body[-1].value
             pairs = None
+            tail_assigns: List[Tuple[str, ast.expr]] = []
             if isinstance(target, ast.Name) and isinstance(rv, ast.Name):
                 pairs = [(target.id, rv.id)]
-            elif isinstance(target, ast.Tuple) and isinstance(rv, ast.Tuple) and len(target.elts) == len(rv.elts) and all(isinstance(x, ast.Name) for x in list(target.elts) + list(rv.elts)):
-                pairs = [(t_.id, l_.id) for t_, l_ in zip(target.elts, rv.elts)]
+            elif isinstance(target, ast.Tuple) and isinstance(rv, ast.Tuple) and len(target.elts) == len(rv.elts) and all(isinstance(x, ast.Name) for x in target.elts):
+                # element-wise: a returned local becomes the target itself, any other element is assigned in order
+                pairs = [(t_.id, l_.id) for t_, l_ in zip(target.elts, rv.elts) if isinstance(l_, ast.Name) and l_.id in stored]
+                tail_assigns = [(t_.id, l_) for t_, l_ in zip(target.elts, rv.elts) if not (isinstance(l_, ast.Name) and l_.id in stored)]
+                tnames = {t_.id for t_ in target.elts}
+                # later elements must not read a target that an earlier element assigns (tuple assignment is simultaneous)
+                plocals = {l_ for _, l_ in pairs}
+                if any(isinstance(n, ast.Name) and n.id in tnames and n.id not in plocals for _, v_ in tail_assigns for n in ast.walk(v_)):
+                    pairs = None
             if pairs and len({l_ for _, l_ in pairs}) == len(pairs) and all(l_ in stored and l_ not in actual for _, l_ in pairs):
                 locs = {l_ for _, l_ in pairs}
                 clash = False
@@ -305,10 +313,13 @@ class Expander:
                     for tname, lname in pairs:
                         rename[lname] = tname
                     drop_tail = True
+                    self._tail_assigns = tail_assigns
         rn = _Rename(rename, subst)
         body = [rn.visit(s) for s in body]
         if drop_tail:
-            body = body[:-1]
+            extra = [ast.Assign(targets=[ast.Name(id=t_, ctx=ast.Store())], value=rn.visit(copy.deepcopy(v_))) for t_, v_ in getattr(self, "_tail_assigns", [])]
+            self._tail_assigns = []
+            body = body[:-1] + extra
             mode = "stmt"
         if mode == "return":
             if not _always_returns(body):
@@ -381,6 +392,17 @@ class Expander:
             r = res(s.value)
             if r:
                 return self.expand(s.value, r[0], r[1], r[2], "assign", ast.Name(id=s.target.id, ctx=ast.Store()), cname, stack)
+        elif isinstance(s, ast.For) and isinstance(s.iter, ast.Call):
+            r = res(s.iter)
+            if r:
+                self._n += 1
+                tmp = f"_inl_{r[0].name.strip('_')}{self._n}"
+                ex = self.expand(s.iter, r[0], r[1], r[2], "assign", ast.Name(id=tmp, ctx=ast.Store()), cname, stack)
+                if ex is not None:
+                    s.iter = ast.copy_location(ast.Name(id=tmp, ctx=ast.Load()), s.iter)
+                    s.body = self.block(s.body, cname, stack)
+                    s.orelse = self.block(s.orelse, cname, stack)
+                    return ex + [s]
         elif isinstance(s, ast.If):
             t = s.test
             neg = isinstance(t, ast.UnaryOp) and isinstance(t.op, ast.Not)
@@ -399,6 +421,49 @@ class Expander:
                     return ex + [s]
         return None
 
+    def _expr_calls(self, s: ast.stmt, cname, stack) -> ast.stmt:
+        """calls, anywhere in the expressions of s, to helpers whose whole body is `return <expr>`: replaced by that expression"""
+        outer = self
+
+        class X(ast.NodeTransformer):
+            def visit_FunctionDef(self, n):
+                return n
+
+            visit_AsyncFunctionDef = visit_ClassDef = visit_Lambda = visit_FunctionDef
+
+            def visit_Call(self, n):
+                self.generic_visit(n)
+                r = outer.resolve(n, cname)
+                if r is None:
+                    return n
+                d, q, kind = r
+                if not outer.eligible(d, q, kind, stack):
+                    return n
+                body = [b for b in d.body if not (isinstance(b, ast.Expr) and isinstance(b.value, ast.Constant) and isinstance(b.value.value, str))]
+                if len(body) != 1 or not isinstance(body[0], ast.Return) or body[0].value is None:
+                    return n
+                b = outer.bind(d, n, kind)
+                if b is None:
+                    return n
+                actual, _ = b
+                expr = copy.deepcopy(body[0].value)
+                loads: Dict[str, int] = {}
+                for x in ast.walk(expr):
+                    if isinstance(x, ast.Name) and isinstance(x.ctx, ast.Load):
+                        loads[x.id] = loads.get(x.id, 0) + 1
+                # names bound inside the expression (comprehension targets, lambdas) must not collide with the arguments
+                inner = {x.id for x in ast.walk(expr) if isinstance(x, ast.Name) and isinstance(x.ctx, ast.Store)}
+                if any(isinstance(x, ast.Name) and x.id in inner for v in actual.values() for x in ast.walk(v)):
+                    return n
+                for p_, v_ in actual.items():
+                    if p_ in inner or not (_pure(v_) or (_simple(v_) and loads.get(p_, 0) <= 1)):
+                        return n
+                outer.count += 1
+                outer.sites.append(f"{'.'.join(stack[-1:])} <- {q} (expression)")
+                return ast.copy_location(_Rename({}, actual).visit(expr), n)
+
+        return X().visit(s)
+
     def block(self, stmts: List[ast.stmt], cname, stack) -> List[ast.stmt]:
         out: List[ast.stmt] = []
         for s in stmts:
@@ -406,6 +471,9 @@ class Expander:
             if r is not None:
                 out.extend(r)
                 continue
+            if not isinstance(s, (ast.FunctionDef, ast.AsyncFunctionDef, ast.ClassDef)):
+                s = self._expr_calls(s, cname, stack)
+                ast.fix_missing_locations(s)
             if isinstance(s, (ast.FunctionDef, ast.AsyncFunctionDef, ast.ClassDef)):
                 out.append(s)
                 continue
